@@ -20,6 +20,7 @@ def parseEv (t : String) : Option (Option Ev) :=
   | ["ERRclient"] => some (some .incomplete)
   | ["ERRreadback"] => some (some .incomplete)
   | ["F", key, _nth, act] => do some (some (.fault (← key.toNat?) (← act.toNat?)))
+  | ["Tr", _k, _r] => some none   -- the application's TryAbort retry after a failed End: what End reported for k stays the error
   | _ => none
 
 def refusals : St → List Ev → List String → List String
